@@ -525,7 +525,7 @@ class QConv2DTranspose(Conv2DTranspose, PrunableLayer):
         kernel_size=kernel_size,
         strides=strides,
         padding=padding,
-        output_padding=None,
+        output_padding=output_padding,
         data_format=data_format,
         dilation_rate=dilation_rate,
         activation=activation,
